@@ -34,6 +34,10 @@ PROPERTIES.update({
              "bound": "IR built directly: module default {AUTOMATIC, IMPLICIT, EXPLICIT} x EXTENSIBILITY IMPLIED on/off x {SEQUENCE, SET, CHOICE} x 1..=3 BOOLEAN components (each OPTIONAL or not, tagged or not) x extension marker absent or at any index 0..=n, followed by a second module with its own extensibility default on the same backend (exhaustive product, 10248 cases); checks the generated token text"},
             {"unit": "b_sequence_parser", "functions": "lexer::sequence::sequence -> sequence_component / extension_group (nom combinators)",
              "bound": "0..=2 root components, optional marker, 0..=3 additions each a plain component or a [[ ]] group of 1..=2 components with/without version number (exhaustive, 471 cases); source text generated and parsed by the real parser"},
+            {"unit": "b_resolve_class_reference_frame", "functions": "ASN1Type::resolve_class_reference (validator/linking/mod.rs)",
+             "bound": "SEQUENCE / SET / CHOICE with 1..=3 BOOLEAN components, each untagged / IMPLICIT-tagged / EXPLICIT-tagged, extension marker absent or at any index (exhaustive)"},
+            {"unit": "b_c02_component_types", "functions": "Rasn::constraints_and_type_name (component type table), format_sequence_member, format_default_methods (generator/rasn), via Backend::generate_module",
+             "bound": "one component of each of 15 builtin/reference types x {SEQUENCE, SET, CHOICE, element of SEQUENCE OF} x {required, OPTIONAL, DEFAULT where a value is available} x type names {T, PDU-Header, X-info} (exhaustive, 333 cases); checks the emitted Rust type and that the default annotation names a generated function"},
             {"unit": "b_c02_recursion_marking", "functions": "ToplevelDefinition::mark_recursive -> ASN1Type::mark_recursive / ASN1Type::recurses (validator/linking/mod.rs)",
              "bound": "2..=3 mutually referencing SEQUENCE/SET/CHOICE definitions with 1..=2 components (BOOLEAN, reference, SEQUENCE OF reference), marked in the validator's order; exhaustive prefix then seeded random sample up to the evaluation limit"},
         ],
@@ -88,6 +92,8 @@ PROPERTIES.update({
         "bounded_native": [
             {"unit": "b_generate_constructed", "functions": "Backend::generate_module -> generate_tld -> generate_sequence_or_set / generate_choice -> format_sequence_or_set_members, format_choice_options, format_sequence_member, format_tag, join_annotations (generator/rasn: quote!/TokenStream code)",
              "bound": "IR built directly: module default {AUTOMATIC, IMPLICIT, EXPLICIT} x EXTENSIBILITY IMPLIED on/off x {SEQUENCE, SET, CHOICE} x 1..=3 BOOLEAN components (each OPTIONAL or not, tagged or not) x extension marker absent or at any index 0..=n, followed by a second module with its own extensibility default on the same backend (exhaustive product, 10248 cases); checks the generated token text"},
+            {"unit": "b_resolve_class_reference_frame", "functions": "ASN1Type::resolve_class_reference (validator/linking/mod.rs)",
+             "bound": "SEQUENCE / SET / CHOICE with 1..=3 BOOLEAN components, each untagged / IMPLICIT-tagged / EXPLICIT-tagged, extension marker absent or at any index (exhaustive)"},
             {"unit": "b_c03_apply_tagenv_lists", "functions": "ToplevelDefinition::apply_tagging_environment (intermediate/mod.rs)",
              "bound": "module default in {AUTOMATIC, IMPLICIT, EXPLICIT} x kind in {SEQUENCE, SET, CHOICE, primitive} x tag on the assignment x 0..=3 components, each untagged / keyword-less / IMPLICIT / EXPLICIT (exhaustive product, 3108 cases)"},
         ],
